@@ -29,6 +29,9 @@ type Phase struct {
 	// Serial phases are run by shard 0 only, idx in order (used for
 	// enumerations that carry state and for -race stress phases).
 	Serial bool
+	// Everywhere phases are run completely by every shard (used to compare
+	// what separate processes compute for the same case).
+	Everywhere bool
 }
 
 type Check struct {
@@ -46,6 +49,9 @@ type Check struct {
 	// Post inspects the aggregate and returns reasons why the run is
 	// inconclusive (e.g. an oracle that never saw the events it needs).
 	Post func(a *Aggregate) []string
+	// WorkerEnv returns extra environment variables for the worker processes
+	// (dir is the check's work directory).
+	WorkerEnv func(dir string) []string
 	// HangIsViolation: a case that does not terminate is a violation of the
 	// property itself (C04) rather than an inconclusive run.
 	HangIsViolation bool
@@ -282,7 +288,7 @@ func RunWorker(ck *Check, tier string, seed uint64, shard, shards int, fromPhase
 			continue
 		}
 		for idx := start; idx < n; idx++ {
-			if int(idx%uint64(shards)) != shard {
+			if !ph.Everywhere && int(idx%uint64(shards)) != shard {
 				continue
 			}
 			c.runCase(ck, pi, idx)
@@ -438,6 +444,9 @@ func RunParent(ck *Check, tier string, seed uint64, self string) int {
 				cmd.Stdout = lf
 				cmd.Stderr = lf
 				cmd.Env = append(os.Environ(), "GOMAXPROCS=2", "GOTRACEBACK=single")
+				if ck.WorkerEnv != nil {
+					cmd.Env = append(cmd.Env, ck.WorkerEnv(dir)...)
+				}
 				if err := cmd.Start(); err != nil {
 					mu.Lock()
 					inconcl = append(inconcl, fmt.Sprintf("shard %d: cannot start worker: %v", sh, err))
